@@ -71,6 +71,23 @@
 (*                no persisted hint lies above the real height there       *)
 (* Historical rescans are answered while the view is a prefix of the       *)
 (* active chain (OnMain); callers' hints are correct on both.              *)
+(*                                                                         *)
+(* Binding (vlib/props/c14.py, part "catchup"): CatchUpMC (exhaustive,     *)
+(* LongGaps = {}), CatchUpGen behaviours and the fixed schedules of        *)
+(* directed_catchup/ (a watched event in the notifier's tip block, a       *)
+(* depth-2 reorg of its two best blocks during an outage of 140 / 150      *)
+(* further blocks) are replayed by harness/chainntnfs/c14_catchup_test.go  *)
+(* on the real HandleMissedBlocks / RewindChain / GetClientMissedBlocks +  *)
+(* TxNotifier + bolt hint cache over a scripted ChainConn; CatchUpTrace    *)
+(* judges the recorded lines.  The executor parks every ChainConn call of  *)
+(* HandleMissedBlocks, so that RewindStep lines are DisconnectTips that    *)
+(* were observed (TxNotifier height), not inferred.  When the real call    *)
+(* does not do what the schedule expects (e.g. returns without rewinding)  *)
+(* the line says what it did, the behaviour ends there and the step is     *)
+(* rejected as "not allowed by the model" (deadlock at that line).         *)
+(* Not modelled: backendStoresReorgs = false (neutrino), a backend that    *)
+(* moves during HandleMissedBlocks, failing ChainConn calls other than     *)
+(* GetBlockHash beyond the tip, the block-epoch client queues.             *)
 (***************************************************************************)
 EXTENDS TxNotifier
 
